@@ -303,6 +303,18 @@ const DICT: [&str; 20] = [
     "nb0", ".0", "pl", "_", "nb", "NB0",
 ];
 
+/// Literals of the library's pattern / name code (no braces or comparison
+/// operators: those would change the kind of pattern under test).
+fn pattern_literals() -> &'static [&'static str] {
+    static L: std::sync::OnceLock<Vec<&'static str>> = std::sync::OnceLock::new();
+    L.get_or_init(|| {
+        crate::corpus::literal_strs(&["pattern", "pkgname", "dewey", "depend"])
+            .into_iter()
+            .filter(|s| s.len() <= 16 && !s.contains(|c| matches!(c, '{' | '}' | '<' | '>' | '\n')))
+            .collect()
+    })
+}
+
 fn simple_char(c: char) -> bool {
     c.is_ascii_alphanumeric() || c == '-'
 }
@@ -436,8 +448,9 @@ pub fn run(cx: &mut Cx) {
     for _ in 0..n {
         let glob = r.chance(3, 4);
         let mut toks = gen_tokens(&mut r, glob);
+        let lits = pattern_literals();
         if r.chance(1, 8) {
-            let d = DICT[r.below(DICT.len())];
+            let d = if !lits.is_empty() && r.chance(1, 3) { lits[r.below(lits.len())] } else { DICT[r.below(DICT.len())] };
             if r.chance(1, 4) {
                 for (i, c) in d.chars().enumerate() {
                     toks.insert(i, Tok::Lit(c));
@@ -461,7 +474,7 @@ pub fn run(cx: &mut Cx) {
             let nm = sample(&mut r, &toks);
             names.extend(mutations(&mut r, &nm));
             if r.chance(1, 3) {
-                let d = DICT[r.below(DICT.len())];
+                let d = if !lits.is_empty() && r.chance(1, 3) { lits[r.below(lits.len())] } else { DICT[r.below(DICT.len())] };
                 names.push((format!("{nm}{d}"), "dict-suffix"));
                 names.push((format!("{d}{nm}"), "dict-prefix"));
                 if let Some(st) = nm.strip_suffix(d) {
